@@ -94,10 +94,17 @@ func H_C12_cam() {
 	// predicate
 	var pred fFilter
 	havePred := vChoice("pred.kind", 0, vBound("pred-kinds", 1, 2))
-	if havePred == 1 && vChoice("pred.condition", 0, 1) == 1 {
-		havePred = 3
+	if havePred == 1 {
+		switch vChoice("pred.condition", 0, 2) {
+		case 1:
+			havePred = 3
+		case 2:
+			havePred = 4
+		}
 	}
 	switch havePred {
+	case 4: // a column range with symbolic open / closed / unset bounds (value ranges: thorough tier)
+		pred = c05Leaf([]int{4, 3}[vChoice("pred.range.leaf", 0, vBound("pred-range-leaves", 0, 1))])
 	case 3: // condition(leaf ? pass_all-or-absent : pass_all-or-absent)
 		pl := c05Leaf([]int{0, 7}[vChoice("pred.cond.leaf", 0, 1)]) // pass_all(flag) or cells_per_row_offset(n)
 		haveT, haveE := vChoice("pred.true", 0, 1) == 1, vChoice("pred.false", 0, 1) == 1
